@@ -372,7 +372,7 @@ class Interp:
         v = self.eval(e.operand, env)
         if isinstance(e.op, ast.Not): return not self.truth(v)
         if isinstance(e.op, ast.USub):
-            if isinstance(v, PyNum): return PyNum(-v.z)
+            if isinstance(v, PyNum): return PyNum(z3.simplify(-v.z))
             if isinstance(v, DF): return DF(L.vmap(v.vec, lambda x: -x, total=None if v.vec.total is None else -v.vec.total), v.unit)
             if isinstance(v, Arr):
                 a = Arr(lambda t: -v.mag(t), v.origin, v.length)
@@ -617,6 +617,10 @@ class Interp:
             if name == "values":
                 a = Arr(lambda t: o.df.vec.val(t) / o.df.unit.f, o.df.vec.origin, o.df.vec.n)
                 a.total = None if o.df.vec.total is None else o.df.vec.total / o.df.unit.f
+                pf = getattr(o.df.vec, "prefix", None)
+                if pf is not None:
+                    f_ = o.df.unit.f
+                    a.prefix = lambda t: pf(t) / f_
                 return PintArr(a, o.df.unit)
             if name == "pint": return PintAccessor(o)
             if name == "iloc": return ILoc(o, "iloc")
@@ -727,8 +731,18 @@ class Interp:
             return base.d[k]
         if isinstance(base, (list, tuple)):
             if isinstance(key, PyNum) and z3.is_int_value(key.z): return base[key.z.as_long()]
+        if isinstance(base, Arr) and isinstance(key, PyNum) and z3.is_int_value(key.z) and key.z.as_long() in (0, -1) and base.origin is not None:
+            self.index_facts(base.origin)
+            return PyNum(base.mag(base.origin.tmin if key.z.as_long() == 0 else base.origin.tmax))
         if isinstance(base, ILoc):
             if base.kind == "dtypes.iloc": return ("dtype", base.target[1])
+            if base.kind == "iloc" and isinstance(base.target, Series) and isinstance(key, PyNum) and z3.is_int_value(key.z) \
+                    and key.z.as_long() in (0, -1):
+                df = base.target.df; v = df.vec
+                self.index_facts(v)
+                self.lib_pre("iloc[0] / iloc[-1] of a non-empty series", v.n > 0)
+                at = v.tmin if key.z.as_long() == 0 else v.tmax
+                return Qty(v.val(at), df.unit)
         if isinstance(base, Index):
             if isinstance(key, PyNum) and z3.is_int_value(key.z) and key.z.as_long() == 0:
                 return TS(base.origin.tmin)
@@ -738,6 +752,18 @@ class Interp:
         raise Unsupported(f"subscript {type(base).__name__}[{type(key).__name__}]")
 
     def store_subscript(self, base, key, v):
+        if isinstance(base, Arr) and isinstance(key, PyNum) and z3.is_int_value(key.z) and key.z.as_long() == 0 \
+                and isinstance(v, PyNum) and base.origin is not None:
+            o = base.origin
+            self.index_facts(o)
+            old, new0 = base.mag, v.r
+            tmin = o.tmin
+            delta = new0 - old(tmin)
+            base.mag = lambda t: z3.If(t == tmin, new0, old(t))
+            if base.total is not None: base.total = base.total + delta
+            pf = getattr(base, "prefix", None)
+            if pf is not None: base.prefix = lambda t: z3.If(t >= tmin, pf(t) + delta, pf(t))
+            return
         if isinstance(base, SDict):
             base.d[self.dict_key(key)] = v; return
         if isinstance(base, DF) and key == "value" and isinstance(v, (Series, PintArr)):
@@ -1019,9 +1045,12 @@ class Interp:
                 if u2.dim != df.unit.dim: raise SymRaise("DimensionalityError", "pint.to")
                 return Series(DF(df.vec, u2))
         if isinstance(recv, Arr):
-            if name == "to_numpy": return recv
+            if name in ("to_numpy", "copy", "astype"):
+                a = Arr(recv.mag, recv.origin, recv.length); a.total = recv.total; a.const = recv.const
+                if hasattr(recv, "prefix"): a.prefix = recv.prefix
+                return a
         if isinstance(recv, PintArr):
-            if name == "to_numpy": return recv.arr
+            if name == "to_numpy": return self.call_bound(recv.arr, "to_numpy", args, kwargs)
         if isinstance(recv, Index):
             o = recv.origin
             if name == "max":
@@ -1230,6 +1259,11 @@ class Interp:
             if isinstance(x, Qty): return Qty(f(x.mag) * x.unit.f, x.unit)
             if isinstance(x, PyNum): return PyNum(f(x.r))
             raise Unsupported(f"{name}({type(x).__name__})")
+        if name == "np.cumsum" and isinstance(args[0], Arr):
+            a = args[0]
+            pf = getattr(a, "prefix", None)
+            if pf is None: raise Unsupported("np.cumsum of an array without structural prefix")
+            return Arr(lambda t: pf(t), a.origin, a.length)
         if name in ("np.full", "np.ones", "np.zeros"):
             n = args[0] if args else kwargs.get("shape")
             if not isinstance(n, PyNum): raise Unsupported("np.full length")
